@@ -123,11 +123,7 @@ func (r *reference) resolveRef(cfg *Config, opts *options) (value, error) {
 		}
 
 		v, err = r.Path.GetValue(cfg, opts)
-		if err == nil {
-			if v == nil {
-				break
-			}
-
+		if err == nil && v != nil {
 			return v, nil
 		}
 
@@ -143,7 +139,9 @@ func (r *reference) resolveRef(cfg *Config, opts *options) (value, error) {
 }
 
 func (r *reference) resolveEnv(cfg *Config, opts *options) (string, parse.Config, error) {
-	var err error
+	// without any resolver the reference stays unresolved; it must not turn
+	// into an empty value silently.
+	var err error = ErrMissing
 
 	if len(opts.resolvers) > 0 {
 		key := r.Path.String()
